@@ -627,6 +627,10 @@ fn verif_loom_abort_vs_request() {
 fn verif_loom_task_drop_vs_locked_map() {
     let raw = std::env::var("VERIF_LOOM_SCENARIO").unwrap_or_else(|_| String::from("dropmap,o"));
     let bind = raw.split(',').nth(1) == Some("b");
+    // `m`: no second thread; the application lets go of its `Multiplexor` first and the task's
+    // future is dropped right after, before it is polled again (both locals of a function that
+    // returns early): the task is then the only owner of the flow map
+    let mux_first = raw.split(',').nth(1) == Some("m");
     let states = alloc::sync::Arc::new(core::sync::atomic::AtomicU64::new(0));
     let st2 = states.clone();
     let raw_out = raw.clone();
@@ -653,6 +657,22 @@ fn verif_loom_task_drop_vs_locked_map() {
             s.poll_obtain_write_permission(&cx).is_pending(),
             "[{raw}] DROPMAP: a writer without credit did not wait"
         );
+        if mux_first {
+            drop(mux);
+            drop(task);
+            let woken = cw.0.load(Ordering::SeqCst);
+            let after = s.poll_obtain_write_permission(&cx);
+            assert!(
+                matches!(after, Poll::Ready(None)),
+                "[{raw}] DROPMAP CLOSED: the multiplexor and the task are gone but the writer of an established stream is told {after:?}"
+            );
+            assert!(
+                woken >= 1,
+                "[{raw}] DROPMAP LOST WAKEUP: the multiplexor and the task are gone and the writer waiting for credit was never woken"
+            );
+            drop((tx_msg_rx, dropped_flows_rx));
+            return;
+        }
         let mux = alloc::sync::Arc::new(mux);
         let mux2 = mux.clone();
         let caller = loom::thread::spawn(move || {
